@@ -1393,6 +1393,9 @@ static char *ex_txt(char *src, char **dst, char *excmd)
 	return src;
 }
 
+static int ex_depth;	/* ex_command() nesting: :so of the file itself, @r inside r, ... */
+static int ex_deep;	/* nested too deeply; unwinding */
+
 /* execute a single ex command */
 static int ex_exec(char *ln)
 {
@@ -1402,7 +1405,7 @@ static int ex_exec(char *ln)
 		ex_show("command too long");
 		return 1;
 	}
-	while (*ln) {
+	while (*ln && !ex_deep) {
 		char *txt = NULL;
 		int idx;
 		ln = ex_loc(ln, loc);
@@ -1422,7 +1425,19 @@ static int ex_exec(char *ln)
 /* execute a single ex command */
 int ex_command(char *ln)
 {
-	int ret = ex_exec(ln);
+	int ret = 1;
+	if (ex_depth < 64) {
+		ex_depth++;
+		ret = ex_exec(ln);
+		ex_depth--;
+	} else if (!ex_deep) {
+		ex_deep = 1;
+		ex_show("nested too deeply");
+	}
+	if (ex_deep)
+		ret = 1;
+	if (!ex_depth)
+		ex_deep = 0;
 	lbuf_modified(xb);
 	return ret;
 }
